@@ -97,3 +97,26 @@ func upgradeMergeBranches(c *Ctx, P string) []Obligation {
 		c.edgeMust(P, "merge.feature-only.features-merged", fnUpgAfter, isFeature, true, `store:^var:newUpgrade\.Features = codec\.CleanUpgradeFeatureSlice\(builtin\.append\(var:oldUpgrade\.Features, var:newUpgrade\.Features\)\)$`, 1, "and merges its features into the stored ones"),
 	}
 }
+
+// rewardOperands (C26, C27): the stake-weighted computation gets the relay count, the stake and the chain's
+// multiplier each in its own slot (all three are big integers; the compiler does not tell them apart).
+func rewardOperands(c *Ctx, P string) []Obligation {
+	return c.Rows([]Row{
+		{Prop: P, ID: "reward.pip22-operands", Fn: "(x/nodes/keeper.Keeper).CalculateRelayReward",
+			Target: CallTo(`^` + kN + `calculateRewardRewardPip22\(`).Except(`^` + kN + `calculateRewardRewardPip22\(k, ctx, relays, stake, ` + kN + `GetChainSpecificMultiplier\(k, ctx, chain\)\)$`),
+			Why:    "relays, stake and the chain-specific multiplier, in that order"},
+		{Prop: P, ID: "reward.split-of-the-computed-coins", Fn: "(x/nodes/keeper.Keeper).CalculateRelayReward",
+			Target: CallTo(`^` + kN + `splitRewards\(`).Except(`^` + kN + `splitRewards\(k, ctx, phi:coins\)$`), Why: "what is split is the computed reward"},
+	})
+}
+
+// tokenRemovalPersists (C19, C25): the stake taken off a node is taken off its stored record.
+func tokenRemovalPersists(c *Ctx, P string) []Obligation {
+	rm := `\(x/nodes/types\.Validator\)\.RemoveStakedTokens\(v, tokensToRemove\)`
+	return c.Rows([]Row{
+		{Prop: P, ID: "removeTokens.persisted", Fn: "(x/nodes/keeper.Keeper).removeValidatorTokens", Assume: []Lit{F(`^nonnil\(` + rm + `#1\)$`)},
+			Barrier: []string{`^` + kN + `SetValidator\(k, ctx, ` + rm + `#0\)`}, Target: TargetAnyReturn(), Why: "the record with the reduced stake is stored (what is burned from the pool is gone from the record)"},
+		{Prop: P, ID: "removeTokens.returns-the-reduced-record", Fn: "(x/nodes/keeper.Keeper).removeValidatorTokens", Assume: []Lit{F(`^nonnil\(` + rm + `#1\)$`)},
+			Target: RetNotMatch(0, `^`+rm+`#0$`), Why: "and handed back to the caller"},
+	})
+}
